@@ -88,7 +88,7 @@ def octets_needed(i):
 
 
 LENGTH_POINTS = sorted(set(
-    list(range(0, 600)) + list(range(600, 8384, 5)) + [k * 256 + d for k in range(1, 34) for d in (-1, 0, 1, 191, 192, 193)] +
+    list(range(0, 8704)) +
     [8190, 8191, 8192, 8193, 8382, 8383, 8384, 8385, 8386, 8447, 8448, 8575, 8576, 16319, 16320, 16383, 16384, 65535, 65536, 65537,
      (1 << 24) - 1, 1 << 24, (1 << 31) - 1, 1 << 31, (1 << 32) - 2, (1 << 32) - 1]))
 
@@ -120,6 +120,8 @@ def show(x):
         return 'octets[%s]' % ' '.join('%02x*%d' % r for r in x[1:6])
     if isinstance(x, tuple):
         return '(%s)' % ', '.join(show(e) for e in x)
+    if isinstance(x, int) and not isinstance(x, bool) and x.bit_length() > 128:
+        return '<integer of %d bits, low octets ..%x>' % (x.bit_length(), x & 0xFFFFFFFF)
     return repr(x)
 
 
@@ -132,29 +134,48 @@ class Bench(object):
         self.E = Evaluator(prog)
 
     def run(self, what, thunk):
+        """('ok', v) | ('raise', name) | ('diverged',) | ('gap', why): evaluation left what the checker models / the state the bench set up."""
         try:
             return ('ok', thunk())
         except Raised as ex:
             if ex.name in GAP_ERRORS and not ex.sure:
-                raise AnalysisError('%s: evaluation stopped with %s (%s)' % (what, ex.name, ex.detail))
+                return ('gap', 'evaluation stopped with %s (%s)' % (ex.name, ex.detail))
             return ('raise', ex.name)
         except Diverged:
             return ('diverged',)
         except NoEval as ex:
-            raise AnalysisError('%s: outside the checker\'s evaluator: %s' % (what, ex))
+            return ('gap', 'outside the checker\'s evaluator: %s' % ex)
         except RecursionError:
-            raise AnalysisError('%s: recursion' % what)
+            return ('gap', 'recursion')
 
     def sweep(self, rid, construct, where, what, message, cases, rep=None):
-        """cases: iterable of (label, thunk, expected outcome).  One rule instance; the first disagreeing point is reported."""
+        """cases: iterable of (label, thunk, expected outcome).  One rule instance; the first disagreeing point is reported.
+
+        A point where evaluation cannot be completed (it reaches state outside the codec's own field, or a construct outside the
+        evaluator) while other points of the same sweep evaluate is a value-dependent special case of the codec: the RFC function
+        depends on the octets / the value alone, so that point is reported as a violation.  Only when NO point of the sweep can be
+        evaluated is it a modelling gap (exit 2)."""
         rep = rep or self.rep
-        bad, n = None, 0
+        bad, gap, n, done = None, None, 0, 0
         for label, thunk, want in cases:
             n += 1
             got = self.run('%s [%s]' % (construct, label), thunk)
+            if got[0] == 'gap':
+                if gap is None:
+                    gap = (label, got, want)
+                continue
+            done += 1
             if got != want:
                 bad = (label, got, want)
                 break
+        if bad is None and gap is not None:
+            if done == 0:
+                raise AnalysisError('%s [%s]: %s' % (construct, gap[0], gap[1][1]))
+            label, got, want = gap
+            rep.check(False, rid, construct, '%s: %s' % (what, label),
+                      '%s: at %s the result depends on something other than the coded value (%s) while %d other points evaluate; RFC 4880 gives %s'
+                      % (message, label, got[1], done, show(want)), where=where, expected=show(want), found=got[1], scenario=label)
+            return False
         if bad is None:
             rep.check(True, rid, construct, what, message, where=where, detail='%s: %d points agree with the RFC' % (what, n))
             return True
@@ -237,7 +258,7 @@ def new_format(rep, prog, H, B):
             (('first octet %#04x' % o, dec(bytes([o])), ok((o, body_after()))) for o in range(0, 192)))
     B.sweep('C09.1', 'Header.length (octets)', lb.where, 'two-octet length fields', dmsg,
             (('octets %#04x %#04x' % (o1, o2), dec(bytes([o1, o2])), ok((((o1 - 192) << 8) + o2 + 192, body_after())))
-             for o1 in range(192, 224) for o2 in (0, 1, 63, 64, 127, 128, 191, 192, 254, 255)))
+             for o1 in range(192, 224) for o2 in (range(256) if o1 in (192, 207, 223) else (0, 1, 63, 64, 127, 128, 191, 192, 254, 255))))
     B.sweep('C09.1', 'Header.length (octets)', lb.where, 'five-octet length fields', dmsg,
             (('octets ff %s' % v.to_bytes(4, 'big').hex(), dec(b'\xff' + v.to_bytes(4, 'big')), ok((v, body_after())))
              for v in (0, 1, 191, 192, 8383, 8384, 65535, 65536, 0x01020304, 0x7fffffff, 0x80000000, 0xfffefdfc, 0xffffffff)))
@@ -277,6 +298,21 @@ def new_format(rep, prog, H, B):
             'the declared width must be the width the encoder emits (1 below 192, 2 below 8384, else 5)',
             (('length %d' % n, width(n), ok((len(rfc_new_length(n)), 1 + len(rfc_new_length(n)), b'\xc2' + rfc_new_length(n))))
              for n in (0, 1, 190, 191, 192, 193, 255, 256, 8382, 8383, 8384, 8385, 65535, 65536, 100000, 1 << 24, (1 << 32) - 1)))
+
+
+    def width_seq(ns):
+        def thunk():
+            h = packet_header(E, PH, new_header_octets(2, b'\x00'))
+            out = []
+            for n in ns:
+                E.set(h, 'length', n)
+                out.append((E.get(h, 'llen'), E.length(h), snap(E.method(h, '__bytearray__'))))
+            return tuple(out)
+        return thunk
+    B.sweep('C09.1', 'Header.llen', g.where, 'declared width follows successive length changes',
+            'the declared width is a function of the current length (no first-value cache)',
+            (('lengths %s' % (ns,), width_seq(ns), ok(tuple((len(rfc_new_length(n)), 1 + len(rfc_new_length(n)), b'\xc2' + rfc_new_length(n)) for n in ns)))
+             for ns in ((100, 200, 9000, 100), (9000, 5), (191, 192, 191, 8384, 8383))))
 
 
 # ------------------------------------------------------------------------------------------------- C09.2
@@ -339,6 +375,20 @@ def widths(rep, prog, H, B=None):
                 'for old-format headers the length-of-length must follow the current length: it widens exactly when the length no longer '
                 'fits (256 needs two octets, 65536 four) and the tag octet announces the width that is written',
                 (('parsed width %d, length %d' % (WIDTH_OF_OLD_TYPE[t], n), grow(t, n), grown(t, n)) for n in pts), rep=rep)
+
+    def grow_seq(t, ns):
+        def thunk():
+            h = packet_header(E, PH, old_octets(t, 1, WIDTH_OF_OLD_TYPE[t]))
+            out = []
+            for n in ns:
+                E.set(h, 'length', n)
+                out.append((E.get(h, 'llen'), E.length(h), snap(E.method(h, '__bytearray__'))))
+            return tuple(out)
+        return thunk
+    B.sweep('C09.2', 'Header.llen', g.where, 'old-format width follows successive length changes',
+            'the old-format width is a function of the parsed width and the current length (no first-value cache)',
+            (('parsed width %d, lengths %s' % (WIDTH_OF_OLD_TYPE[t], ns), grow_seq(t, ns), ok(tuple(grown(t, n)[1] for n in ns)))
+             for t, ns in ((0, (5, 300, 70000, 5)), (0, (70000, 300)), (1, (5, 70000, 256)), (3, (5, 300)))), rep=rep)
 
     # writer/reader type maps are inverse: what is written parses back to the same width
     def back(t, n):
@@ -446,10 +496,23 @@ def s2k_count(rep, prog, B):
     B.sweep('C09.4', 'String2Key.count', g.where, 'decoded count for every coded octet',
             'the coded count octet c denotes (16 + (c & 15)) << ((c >> 4) + 6) (RFC 4880 3.7.1.3)',
             (('c=%d' % c, dec(c), ok(rfc_count(c))) for c in range(256)))
-    for v, want in ((-1, ('raise', 'ValueError')), (0, ok(rfc_count(0))), (255, ok(rfc_count(255))), (256, ('raise', 'ValueError')),
-                    (1000, ('raise', 'ValueError'))):
-        B.sweep('C09.4', 'String2Key.count_int', st.where, 'coded count %d' % v, 'the coded count setter must accept exactly 0..255 and store the octet',
-                [('value %d' % v, dec(v), want)])
+    B.sweep('C09.4', 'String2Key.count_int', st.where, 'coded counts the setter accepts', 'the coded count setter must accept exactly 0..255 and store the octet',
+            (('value %d' % v, dec(v), ok(rfc_count(v))) for v in (255, 128, 1, 0)))
+    B.sweep('C09.4', 'String2Key.count_int', st.where, 'coded counts the setter rejects', 'the coded count setter must accept exactly 0..255 and store the octet',
+            (('value %d' % v, dec(v), ('raise', 'ValueError')) for v in (256, -1, 1000, 257)))
+
+    # the stored octet survives a later store (no first-value cache, no "unset" reading of 0)
+    def seq(vals):
+        def thunk():
+            o = fresh()
+            out = []
+            for v in vals:
+                E.set(o, 'count', v)
+                out.append(E.get(o, 'count'))
+            return tuple(out)
+        return thunk
+    B.sweep('C09.4', 'String2Key.count', g.where, 'count after successive stores', 'the decoded count is a function of the last coded octet stored',
+            (('stores %s' % (vals,), seq(vals), ok(tuple(rfc_count(v) for v in vals))) for vals in ((96, 0, 255), (255, 96), (0, 1, 0))))
 
 
 # ------------------------------------------------------------------------------------------------- C09.5
@@ -539,27 +602,53 @@ def times(rep, prog):
 
 
 def _aware_utc_from_seconds(s, stored, pv):
-    """True: the stored value is an aware UTC datetime built from the seconds parameter; False: it is naive / local / built from
-    something else; None: not modelled."""
+    """True: the stored value is an aware UTC datetime built from the seconds parameter; False: it is naive, local wall-clock time
+    (possibly relabelled as UTC), in another zone, or built from something else; None: not modelled.
+
+    Decided from the conversion call that the stored value starts with and from what is applied to its result afterwards:
+      fromtimestamp(x, <utc>)                       aware UTC                                  -> True
+      fromtimestamp(x, <other zone>)                aware, wrong zone                          -> False
+      fromtimestamp(x)                              naive LOCAL wall-clock time                -> False, also with .replace(tzinfo=..) (relabelled)
+      utcfromtimestamp(x)                           naive UTC wall-clock time                  -> False unless .replace(tzinfo=<utc>) follows
+    """
     if len(stored) != 1:
         return None
-    utc = ('timezone.utc', 'datetime.timezone.utc', 'utc', 'UTC')
+    utc = ('timezone.utc', 'datetime.timezone.utc', 'utc', 'UTC', 'pytz.utc', 'pytz.UTC')
+    seconds = (pv, 'int(%s)' % pv)
+    best = None
     for c in s.calls:
         fname, args, kw = c[0], c[1], c[2]
-        if fname.split('.')[-1] == 'fromtimestamp':
-            recorded = '%s(%s)' % (fname, ', '.join(list(args) + ['%s=%s' % kv for kv in kw.items()]))
-            if recorded != stored[0]:
-                continue
-            if not args or args[0] != pv:
-                return False
-            tz = args[1] if len(args) > 1 else kw.get('tz')
-            return tz in utc
-        if fname.split('.')[-1] == 'utcfromtimestamp':
-            # naive unless the zone is attached afterwards
-            if stored[0] == '%s(%s)' % (fname, ', '.join(args)):
-                return False
-            if stored[0] in ['%s(%s).replace(tzinfo=%s)' % (fname, ', '.join(args), z) for z in utc]:
-                return bool(args) and args[0] == pv
+        if fname.split('.')[-1] not in ('fromtimestamp', 'utcfromtimestamp'):
+            continue
+        recorded = '%s(%s)' % (fname, ', '.join(list(args) + ['%s=%s' % kv for kv in kw.items()]))
+        if stored[0].startswith(recorded) and (best is None or len(recorded) > len(best[0])):
+            best = (recorded, fname.split('.')[-1], args, kw)
+    if best is None:
+        return None
+    recorded, kind, args, kw = best
+    rest = stored[0][len(recorded):]
+    x = args[0] if args else kw.get('timestamp', kw.get('t'))
+    if x not in seconds:
+        return False
+    relabel = [('.replace(tzinfo=%s)' % z) for z in utc]
+    if kind == 'fromtimestamp':
+        tz = args[1] if len(args) > 1 else kw.get('tz')
+        if tz is None or tz == 'None':
+            if rest == '' or rest.startswith('.replace(tzinfo='):
+                return False                    # naive local time, or local wall-clock time relabelled
+            return None
+        if tz not in utc:
+            return False
+        if rest == '' or rest in relabel or rest in ['.astimezone(%s)' % z for z in utc]:
+            return True
+        return None
+    # utcfromtimestamp: naive unless the UTC zone is attached to the UTC wall-clock time
+    if rest == '':
+        return False
+    if rest in relabel:
+        return True
+    if rest.startswith('.replace(tzinfo=') or rest.startswith('.astimezone('):
+        return False                            # other zone attached / naive value read as local time
     return None
 
 
@@ -611,6 +700,38 @@ def subpacket_header(rep, prog, B):
             'the reader takes the new-format length, then one type octet: type = low seven bits, critical = bit 7; both are consumed',
             (('type octet %#04x length %d' % (o, n), read(o, n), ok((n, o & 0x7F, bool(o & 0x80), body, len(rfc_new_length(n)) + 1)))
              for o in range(256) for n in (lens if o in (0x02, 0x82, 0xff) else (5,))))
+
+    def reuse(steps):
+        """One header object through several stores / parses: what it reports follows the last one."""
+        def thunk():
+            h = E.new(SH)
+            out = []
+            for kind, a in steps:
+                if kind == 'set':
+                    n, t, crit = a
+                    E.set(h, 'length', n)
+                    E.set(h, 'typeid', t)
+                    E.set(h, 'critical', crit)
+                else:
+                    E.method(h, 'parse', VBuf(a))
+                out.append((snap(E.method(h, '__bytearray__')), E.get(h, 'typeid'), E.get(h, 'critical'), E.length(h)))
+            return tuple(out)
+        return thunk
+
+    def reuse_want(steps):
+        out = []
+        for kind, a in steps:
+            if kind == 'set':
+                n, t, crit = a
+            else:
+                n, t, crit = a[0], a[1] & 0x7F, bool(a[1] & 0x80)      # one-octet lengths only
+            out.append((rfc_new_length(n) + bytes([(0x80 if crit else 0) | t]), t, crit, len(rfc_new_length(n)) + 1))
+        return ok(tuple(out))
+    seqs = ((('set', (5, 2, True)), ('set', (300, 2, False)), ('set', (5, 27, True))),
+            (('parse', b'\x05\x82'), ('parse', b'\x05\x02'), ('set', (9000, 2, False))),
+            (('set', (9000, 33, False)), ('parse', b'\x07\xa1'), ('parse', b'\x00\x21')))
+    B.sweep('C09.6', 'subpacket Header', wr.where, 'subpacket header reused', 'length, type and critical flag follow the last store / parse (nothing sticks)',
+            (('steps %s' % (st,), reuse(st), reuse_want(st)) for st in seqs))
 
     def rt(crit, t, n):
         def thunk():
